@@ -863,6 +863,24 @@ def wave11_rules(ctx):
                             nxt += locs[x["s"]]
                 todo = nxt
                 depth += 1
+    # (3) the plain-character path of the text scanner returns every character it consumes: outside the entity attempt (a closure
+    #     that is rolled back when it fails) no consuming call of the cursor has its result thrown away
+    pe = [f for f in tc.fns if f.name == "parse_next_entity" and f.body]
+    if pe:
+        f = pe[0]
+        CONS = re.compile(r"^(next|next_char_as_str|skip_bytes|consume_str\w*|skip_whitespace\w*|skip_until\w*)$")
+        dropped = []
+        for st in sir.walk(f.body, into_closures=False):
+            if st.get("k") == "expr" and st.get("semi"):
+                for x in sir.walk(st["e"], into_closures=False):
+                    if x.get("k") == "closure":
+                        break
+                    if x.get("k") == "mcall" and CONS.match(x["m"]) and sir.expr_str(x["recv"]) in ("ps", "self"):
+                        dropped.append("`%s` consumes input and its result is dropped" % sir.expr_str(x)[:40])
+        n_ret = sum(1 for x in sir.walk(f.body, into_closures=False) if x.get("k") == "mcall" and x["m"] == "next_char_as_str")
+        obs.append(ob("C12.text/every-char-returned", False if dropped else True if n_ret >= 1 else None, ctx.where(f),
+                      "; ".join(dropped[:2]) if dropped else "the plain-character path hands back what it consumes",
+                      witness=None if not dropped else "static text `a\r\nb` reaches the runtime as `a\nb`"))
     obs.append(ob("C12.sinks/as-stored", False if changed else True if n_sites >= 20 else None, "proc_gen/*.rs",
                   "; ".join(sorted(set(changed))[:3]) if changed else "%d uses of the string-literal emitter, each on the stored text" % n_sites,
                   witness=None if not changed else 'class="a\n  b" reaches the runtime as "a b"; wx:key=" a " as "a"'))
